@@ -170,8 +170,16 @@ def run(prop, tier, seed):
                     gen.append(parse_gen(l))
                 except ValueError:
                     pass
-        if len(gen) < 5:        # time-bounded simulation: a low count on a loaded machine is recorded, not a failure
-            raise MachineryError("GenInteractive produced no scripts: %s" % (r.error,))
+        if len(gen) < 5:        # time-bounded simulation: under heavy load nothing may be printed in time - once more with a longer budget
+            r = run_tlc("GenInteractive", workers=1, simulate="num=%d" % want, depth=300, seed=seed + 7, timeout=120 if not big else 600)
+            for l in r.lines:
+                if l.startswith("GEN "):
+                    try:
+                        gen.append(parse_gen(l))
+                    except ValueError:
+                        pass
+            if len(gen) < 5:    # recorded, not a failure: the targeted and echo scripts do not depend on the simulated ones
+                c.extra["simulation_yielded_no_scripts_under_load"] = True
         gen = gen[:want]
         c.tlc_runs.append({"run": "GenInteractive -simulate", "scripts": len(gen), "wall_s": round(r.wall, 1)})
         echo = echo_scripts(rnd, work)
